@@ -4,6 +4,7 @@ from __future__ import annotations
 
 import ast
 import asyncio
+import itertools
 import logging
 import os
 from typing import Any, ClassVar
@@ -212,10 +213,14 @@ class WaitUntilDecoratorManager(DecoratorManager):
 class FunctionDecoratorManager(DecoratorManager):
     """Maintain and validate a set of decorators applied to a function."""
 
+    # creation order, used to start delayed managers in definition order
+    _seq: ClassVar = itertools.count()
+
     def __init__(self, ast_ctx: AstEval, eval_func_var: EvalFuncVar) -> None:
         """Initialize the function decorator manager."""
         super().__init__(ast_ctx, f"{ast_ctx.get_global_ctx_name()}.{eval_func_var.get_name()}")
         self.eval_func: EvalFunc = eval_func_var.func
+        self.seq = next(FunctionDecoratorManager._seq)
 
         self.logger = self.eval_func.logger
 
